@@ -183,7 +183,7 @@ func main() {
 		},
 		MinEvals:    500,
 		MinDistinct: 100,
-		Require:     []string{"blocks_applied", "blocks_reverted", "store_elements_verified", "forest_root_comparisons", "spent_elements_verified", "tree_nodes_row0_checked", "shape_cases", "high_bit_cases", "high_bit_batches_run_with_32_bit_int"},
+		Require:     []string{"high_bit_cases_reaching_the_unassigned_sentinel_index", "high_bit_created_elements_verified_one_block_later", "blocks_applied", "blocks_reverted", "store_elements_verified", "forest_root_comparisons", "spent_elements_verified", "tree_nodes_row0_checked", "shape_cases", "high_bit_cases", "high_bit_batches_run_with_32_bit_int"},
 		Extra: func(m *harness.Result, cov map[string]any) {
 			cov["exhaustive_subspace"] = "shape enumerator: all leaf counts up to the bound and all spent-subsets x added-counts for small accumulators (batch 0); see counters shape_*"
 		},
